@@ -1518,6 +1518,12 @@ fn layouts_and_forms<F: Float>(c: &mut Case) -> Outcome {
                 let ls: Array1<Option<usize>> = Dbscan::params_with(mp, $dist, LinearSearch).tolerance(eps).check().unwrap().transform(&x);
                 let ok = Optics::params_with(mp, $dist, KdTree).tolerance(eps).check().unwrap().transform(x.view());
                 let ok: Vec<OSample> = ok.iter().map(|s| OSample { idx: s.index(), core: s.core_distance().map(f64_of), reach: s.reachability_distance().map(f64_of) }).collect();
+                // the setters in an unusual order: tolerance first, metric and index afterwards
+                let ok2 = Optics::params_with(mp, $dist, KdTree).tolerance(eps).dist_fn($dist).nn_algo(KdTree).check().unwrap().transform(x.view());
+                let ok2: Vec<OSample> = ok2.iter().map(|s| OSample { idx: s.index(), core: s.core_distance().map(f64_of), reach: s.reachability_distance().map(f64_of) }).collect();
+                let k2: Array1<Option<usize>> = Dbscan::params_with(mp, $dist, KdTree).tolerance(eps).dist_fn($dist).nn_algo(KdTree).check().unwrap().transform(&x);
+                let ok = if ok2 == ok { ok } else { ok2 };
+                let k = if k2 == k { k } else { k2 };
                 (a.to_vec(), same_records, b, k.to_vec(), bt.to_vec(), ls.to_vec(), ok)
             });
             match r {
